@@ -634,6 +634,9 @@ class BusAuthenticator :
             self.state = 'WaitingForBegin'
 
         elif status == 'CONTINUE':
+            if isinstance(challenge, str):
+                # mechanisms may hand back a text challenge (EXTERNAL: '')
+                challenge = challenge.encode('ascii')
             self.sendAuthMessage(b'DATA ' + binascii.hexlify(challenge))
             self.state = 'WaitingForData'
 
